@@ -82,6 +82,9 @@ func (f *StructField) validate() error {
 	t := f.Type
 
 	switch {
+	case t.Kind == KindAny, t.Kind == KindAnyMessage:
+		// Dynamic values are not value types: an empty value encodes to nothing,
+		// the generated decoder then reads the previous field in its place.
 	case t.builtin():
 		return nil
 	case t.Kind == KindStruct:
